@@ -539,7 +539,13 @@ func (fc *funcContext) translateExpr(expr ast.Expr) *expression {
 				fc.zeroValue(t.Elem()),
 			)
 		case *types.Basic:
-			return fc.formatExpr("%e.charCodeAt(%f)", e.X, e.Index)
+			// The length of a string is not known at compile time: even a
+			// constant index needs the upper bound check.
+			check := "%2f >= %1e.length"
+			if fc.pkgCtx.Types[e.Index].Value == nil {
+				check = "(%2f < 0 || " + check + ")"
+			}
+			return fc.formatExpr("("+check+` ? ($throwRuntimeError("index out of range"), undefined) : %1e.charCodeAt(%2f))`, e.X, e.Index)
 		case *types.Signature:
 			switch u := e.X.(type) {
 			case *ast.Ident:
